@@ -184,3 +184,38 @@ h_bizda_add(void)
 	CHECK(ref_is_nth_bday(n, vn, (int)dt_dconv(DT_DAISY, t).daisy), "bizda + n business days");
 	WITNESS();
 }
+
+/* (6) bizda + n months / years: month arithmetic, then the business-day
+ * index cropped to the number of business days of the target month */
+#if !defined MUNIT
+# define MUNIT	DT_DURMO
+#endif
+void
+h_bizda_add_m(void)
+{
+	ND(i32, vy);
+	ND(i32, vm);
+	ND(i32, vb);
+	ND(i32, vn);
+	int first, last, nb, t, ty, tm, tnb;
+	struct dt_d_s v, r;
+
+	ASSUME(vy >= YLO && vy <= YHI && vm >= 1 && vm <= 12);
+	first = ref_days(vy, vm, 1);
+	last = ref_days(vy, vm, ref_mdays(vy, vm));
+	nb = ref_B(last) - ref_B(first - 1);
+	ASSUME(vb >= 1 && vb <= nb);
+	ASSUME(vn != 0 && vn >= -NMAX && vn <= NMAX);
+	memset(&v, 0, sizeof(v));
+	v.typ = DT_BIZDA;
+	v.bizda.y = vy, v.bizda.m = vm, v.bizda.bd = vb;
+	r = dt_dfixup(dt_dadd(v, dt_make_ddur(MUNIT, vn)));
+	t = vy * 12 + (vm - 1) + (MUNIT == DT_DURYR ? 12 * vn : MUNIT == DT_DURQU ? 3 * vn : vn);
+	ty = t / 12, tm = t % 12 + 1;
+	ASSUME(ty >= REF_MIN_YEAR && ty <= REF_MAX_YEAR);
+	tnb = ref_B(ref_days(ty, tm, ref_mdays(ty, tm))) - ref_B(ref_days(ty, tm, 1) - 1);
+	CHECK(r.typ == DT_BIZDA && (int)r.bizda.y == ty && (int)r.bizda.m == tm, "bizda + n months: the month arithmetic");
+	CHECK((int)r.bizda.bd == (vb > tnb ? tnb : vb), "business-day index kept, or cropped to the month's last business day");
+	WITNESS();
+}
+
